@@ -48,6 +48,46 @@ def returns(fn):
     return list(fn.all("return"))
 
 
+def value_leaves(fn, v):
+    """The alternative values of an expression: descends through ?: (and parentheses), so `c ? a : b` is [a, b].
+    Each leaf sits in its own CFG block, so Flow.guards(leaf) carries the condition's polarity."""
+    n = fn.nodes[fn.strip(v)] if v is not None and v >= 0 else None
+    if n is not None and n["k"] == "cond":
+        return value_leaves(fn, n["t"]) + value_leaves(fn, n["f"])
+    return [v]
+
+
+def return_leaves(fn):
+    """[(return node, value leaf)] for every return with a value; `return c ? a : b` contributes two leaves."""
+    out = []
+    for r in fn.all("return"):
+        if "val" in fn.nodes[r]:
+            out.extend((r, v) for v in value_leaves(fn, fn.nodes[r]["val"]))
+    return out
+
+
+def hoist_text(fn, i, prog=None):
+    """Text of expression i with hoisted locals (`const size_t n = v.size();`: pure initialiser over state the function never
+    writes) replaced by their initialisers."""
+    from ..cfg import CondNorm
+    cn = getattr(fn, "_hoist_cn", None)
+    if cn is None:
+        cn = fn._hoist_cn = CondNorm(fn, prog)
+    h = cn.hoisted()
+    depth = [0]
+
+    def cb(n):
+        d = n.get("decl")
+        if d in h and depth[0] < 4:
+            depth[0] += 1
+            try:
+                return fn.text(h[d], 0, cb)
+            finally:
+                depth[0] -= 1
+        return None
+    return fn.text(i, 0, cb)
+
+
 def ret_text(fn, i):
     n = fn.nodes[i]
     return fn.text(n["val"]) if "val" in n else ""
@@ -224,7 +264,10 @@ def forward_iteration(fn, loop):
         return True
     if n["k"] == "for":
         t = " ".join(fn.text(n[k]) for k in ("init", "c", "inc") if k in n) + " " + loop_header(fn, loop)
-        return (".begin()" in t or ".cbegin()" in t) and "rbegin" not in t and "--" not in t
+        if (".begin()" in t or ".cbegin()" in t) and "rbegin" not in t and "--" not in t:
+            return True
+        # index loop: k = 0; k < n; ++k
+        return re.search(r"\b(\w+) = 0 ; \(\1 < [^;]+\) ; (\+\+\1|\1\+\+)", loop_header(fn, loop)) is not None
     return False
 
 
@@ -239,6 +282,31 @@ def case_blocks(fn, switch_stmt=None):
             out[str(l.get("name", l.get("val")))] = b["id"]
         elif l["k"] == "default":
             out["default"] = b["id"]
+    # an if / else-if chain over the same constants: the block entered on the equal edge plays the role of the case block
+    for b in fn.cfg:
+        t = b.get("term")
+        if not t or t.get("cond") is None or t["cond"] < 0 or len(b.get("succ", [])) != 2:
+            continue
+        n = fn.nodes[fn.strip(t["cond"])]
+        if n["k"] == "bin" and n.get("op") in ("==", "!="):
+            sides = (n["l"], n["r"])
+        elif n["k"] == "call" and n.get("op") in ("==", "!=") and len(n.get("args", [])) == 2:
+            sides = (n["args"][0], n["args"][1])
+        else:
+            continue
+        for x, y in (sides, sides[::-1]):
+            c = fn.nodes[fn.strip(y)]
+            name = None
+            if c["k"] == "ref" and c.get("dk") == "enumconst":
+                name = c["name"]
+            elif c["k"] == "lit" and c.get("lk") in ("char", "int") and fn.nodes[fn.strip(x)]["k"] != "lit":
+                name = str(c.get("v"))
+            if name is None:
+                continue
+            tgt = b["succ"][0 if n.get("op") == "==" else 1]
+            if isinstance(tgt, int):
+                out.setdefault(name, tgt)
+            break
     return out
 
 
@@ -619,8 +687,33 @@ def kmsg_record_complete(ctx, tag):
                 break
         src = X(init) if v is not None and init is not None and init >= 0 else "?"
         whole = kl.text(a[2]) in ("%s.size()" % var, "%s.length()" % var, "%s.size()" % m.group(1), "%s.length()" % m.group(1))
-        verbatim = re.match(r"^(std::string\()?param:buf\)?$|^std::basic_string<char>\(param:buf\)$", src) is not None
+        VERB = r"^(std::string\()?param:%s\)?$|^std::basic_string<char>\(param:%s\)$"
+        verbatim = re.match(VERB % ("buf", "buf"), src) is not None
         shrinks = [kl.text(j)[:50] for j in kl.calls(*SHRINK) if kl.text(kl.nodes[j].get("recv", -1)) == var and kl.nodes[j].get("cname") != "operator="]
+        if not verbatim and v is not None and init is not None and init >= 0:
+            # the record may be assembled by a helper: message = helper(buf, prefix) - follow it one level
+            c = kl.nodes[kl.strip(init)]
+            while c["k"] in ("construct", "cast") and (c.get("args") or "sub" in c):
+                nxt = c["args"][0] if c.get("args") else c["sub"]
+                c = kl.nodes[kl.strip(nxt)]
+                if c["k"] == "call":
+                    break
+            if c["k"] == "call" and c.get("cusr") and len(c.get("args", [])) >= 1:
+                pos = [k for k, x in enumerate(c["args"]) if X(x) == "param:buf"]
+                hs = [P.fns[u] for u in P.resolve(c["cusr"]) if u in P.fns]
+                if len(pos) == 1 and len(hs) == 1 and len(hs[0].params) > pos[0]:
+                    h = hs[0]
+                    ctx.use(h)
+                    pn = h.params[pos[0]]["name"]
+                    Xh = Expander(P, h)
+                    rv = [h.text(h.nodes[r]["val"]) for r in returns(h) if "val" in h.nodes[r]]
+                    rv = [re.sub(r"^std::(basic_string<char>|string)\((\w+)\)$", r"\2", t) for t in rv]
+                    if rv and len(set(rv)) == 1 and re.match(r"^\w+$", rv[0]):
+                        hi, hv = local_init(h, rv[0], must=False)
+                        hsrc = Xh(hi) if hv is not None and hi is not None and hi >= 0 else "?"
+                        verbatim = re.match(VERB % (pn, pn), hsrc) is not None
+                        shrinks += [h.text(j)[:50] for j in h.calls(*SHRINK) if h.text(h.nodes[j].get("recv", -1)) == rv[0] and h.nodes[j].get("cname") != "operator="]
+                        src = "%s(..) -> %s" % (h.name, hsrc)
         ctx.check(verbatim and whole and not shrinks, tag + ":kmsg-record-complete", "provenance + who-may-write (extend only)", kl.loc(i),
                   "the kmsg record is the caller's text, only extended by prefix and newline, and written in full",
                   "the buffer written to kmsg is built from '%s'%s%s: the record can lose its tail - the '(dry)' marker and the kill details stand at the end "
@@ -643,3 +736,94 @@ def readdir_does_not_follow_links(ctx, tag):
                   "the fallback looks at the directory entry itself, like d_type does",
                   "the d_type-less fallback follows symbolic links (%s(%s)): it classifies by the target where the fast path classifies the entry, and a "
                   "dangling link makes the stat - and with it the whole directory listing - fail" % (nm, ", ".join(a)[:80]))
+
+
+def readdir_classification(ctx, tag):
+    """Both branches of readDirFromDIR (d_type fast path and fstatat fallback) put entries selected by DE_DIR into the dirs list and
+    entries selected by DE_FILE into the files list of the DirEnts that is returned.  The selection is recognised by the flag constant
+    in a dominating condition (directly or through a hoisted local), the destination by the DirEnts member, not by variable names."""
+    P, cg = ctx.prog, ctx.cg
+    rd = ctx.fn1("Oomd::Fs::readDirFromDIR")
+    fl = Flow(P, rd, cg=cg)
+    returned = set()
+    for r in returns(rd):
+        if "val" in rd.nodes[r]:
+            for x in rd.walk(rd.nodes[r]["val"]):
+                if rd.nodes[x]["k"] == "ref" and rd.nodes[x].get("dk") == "local":
+                    returned.add(rd.nodes[x]["name"])
+    by = {"DE_DIR": [], "DE_FILE": []}
+    for i in rd.calls("push_back", "emplace_back"):
+        g = fl.guards(i)
+        tgt = rd.text(rd.nodes[i]["recv"])
+        for flag in by:
+            if any(p is True and re.search(r"\b%s\b" % flag, k) for k, p in g):
+                by[flag].append((i, tgt))
+    for flag, member in (("DE_DIR", "dirs"), ("DE_FILE", "files")):
+        ctx.counters[tag + "_readdir_push_" + flag] = len(by[flag])
+        ctx.floor(tag + "_readdir_push_" + flag, 2, "push sites under %s (d_type branch and fstatat branch)" % flag)
+        for i, tgt in by[flag]:
+            m = re.match(r"^(\w+)\.(\w+)$", tgt)
+            ctx.check(m is not None and m.group(2) == member and m.group(1) in returned,
+                      "readdir-classification:%s:%s" % (flag, "fast" if any("d_type" in k for k, p in fl.guards(i)) else "fallback"),
+                      "sibling_agreement", rd.loc(i), "entries selected by %s go to the returned .%s" % (flag, member),
+                      "entries selected by %s are pushed to %s (the d_type-less fallback disagrees with the fast path)" % (flag, tgt))
+
+
+def locals_receiving(fn, pattern):
+    """Names of the locals of fn whose initialiser or some assignment's right-hand side matches `pattern` (a regular expression
+    searched in the canonical text).  Used to find a local by its ROLE (what it holds), not by its name."""
+    rx = re.compile(pattern)
+    out = []
+    for d_ in fn.all("decl"):
+        for v_ in fn.nodes[d_].get("vars", []):
+            if v_.get("init") is not None and v_.get("init", -1) >= 0 and rx.search(fn.text(v_["init"])):
+                out.append(v_["name"])
+    for i_, n_ in enumerate(fn.nodes):
+        if n_["k"] == "bin" and n_.get("op") == "=" and rx.search(fn.text(n_["r"])):
+            l_ = fn.nodes[fn.strip(n_["l"])]
+            if l_["k"] == "ref" and l_.get("dk") == "local":
+                out.append(l_["name"])
+        elif n_["k"] == "call" and n_.get("op") == "=" and "recv" in n_ and n_.get("args") and rx.search(fn.text(n_["args"][0])):
+            l_ = fn.nodes[fn.strip(n_["recv"])]
+            if l_["k"] == "ref" and l_.get("dk") == "local":
+                out.append(l_["name"])
+    return sorted(set(out))
+
+
+def role_local(ctx, fn, pattern, what):
+    """The single local of fn that holds `what`; AnalysisBroken if there is none or more than one."""
+    names = locals_receiving(fn, pattern)
+    if len(names) != 1:
+        raise AnalysisBroken("anchor: %s keeps %s in %s local(s) %s; the rules for this function need exactly one" % (fn.pq, what, len(names), names))
+    return names[0]
+
+
+def loop_container(fn, loop):
+    """Canonical text of the container a loop walks front to back, for the three spellings
+    `for (x : C)`, `for (it = C.begin(); it != C.end(); ++it)` and `for (i = 0; i < C.size(); ++i)`; None for other loops.
+    A pointer container is rendered dereferenced (`*q`), so `for (x : *q)` and `q->begin()` agree."""
+    if loop.get("stmt") is None:
+        return None
+    sn = fn.nodes[loop["stmt"]]
+    if sn["k"] == "rangefor" and sn.get("range", -1) >= 0:
+        return fn.text(fn.strip(sn["range"]))
+
+    if sn["k"] != "for":
+        return None
+    if "init" in sn and sn["init"] is not None and sn["init"] >= 0 and fn.nodes[sn["init"]]["k"] == "decl":
+        for v in fn.nodes[sn["init"]].get("vars", []):
+            if v.get("init") is None or v.get("init", -1) < 0:
+                continue
+            c = fn.nodes[fn.strip(v["init"])]
+            if c["k"] == "call" and c.get("cname") in ("begin", "cbegin") and "recv" in c:
+                t = fn.text(fn.strip(v["init"]))
+                r = fn.text(c["recv"])
+                return ("*" + r) if ("%s->%s(" % (r, c["cname"])) in t else r
+    if "c" in sn and sn["c"] is not None and sn["c"] >= 0:
+        for x in fn.walk(sn["c"]):
+            c = fn.nodes[x]
+            if c["k"] == "call" and c.get("cname") in ("size", "length") and "recv" in c:
+                t = fn.text(x)
+                r = fn.text(c["recv"])
+                return ("*" + r) if ("%s->%s(" % (r, c["cname"])) in t else r
+    return None
